@@ -171,8 +171,22 @@ def _h_function_deep(ri: int, ni: int, np_: int, p0: int, p1: int, pi: int, ci: 
             or (f['cav'] or '') != cav or f['override'] or f['init']):
         return False
     if contents == '':
-        return f['tail'] == ' {}' and len(fl) == 1
-    return f['tail'] == '' and _check_body(fl, 1, contents)
+        ok = f['tail'] == ' {}' and len(fl) == 1
+    else:
+        ok = f['tail'] == '' and _check_body(fl, 1, contents)
+    if not ok:
+        return False
+    # the owning scope is a public field: (re)assigning it later re-qualifies the definition
+    if prefix != FunctionPrefix.VIRTUAL:
+        fn.scope = Struct('Later')
+        g = parse_sig(fn.as_def.split('\n')[0])
+        if g is None or g['qual'] != 'Later::' or parse_sig(fn.as_decl.split('\n')[0])['qual'] != '':
+            return False
+        fn.scope = None
+        g = parse_sig(fn.as_def.split('\n')[0])
+        if g is None or g['qual'] != '':
+            return False
+    return True
 
 
 MILS = [[], ['m_a(1)'], ['m_a(1)', 'm_b{2}', 'm_c("x")']]
@@ -257,7 +271,10 @@ def _h_blocks_deep(kind: int, ni: int, ci: int) -> bool:
         kw = 'struct' if kind == 0 else 'class'
         ok = txt == [f'{kw} {name}', '{'] + inner + ['};', '']
         blk.contents = TextBlock('late;')               # contents can be set later
-        return ok and str(blk).split('\n') == [f'{kw} {name}', '{', 'late;', '};', '']
+        if not ok or str(blk).split('\n') != [f'{kw} {name}', '{', 'late;', '};', '']:
+            return False
+        blk.contents = TextBlock(['int a;'], header='public:')      # contents carrying a header
+        return str(blk).split('\n') == [f'{kw} {name}', '{', 'public:', 'int a;', '};', '']
     ids = pick(NS_POOL, ni)
     ns = Namespace(ns_ids_t(list(ids)), contents)
     txt = str(ns).split('\n')
@@ -468,7 +485,7 @@ SPECS = [
       quick=dict(N=1, ct=60, pt=30), thorough=dict(N=3, ct=900, pt=60),
       bounds='symbolic default value / name / initialiser, len <= {N} (bug hunting only)'),
     H('h_function_wide_body', 'wide', pre=['1 <= len(name) <= {M}', 'len(body) <= {N}'],
-      quick=dict(N=2, M=1, ct=280, pt=60), thorough=dict(N=3, M=2, ct=1700, pt=60),
+      quick=dict(N=2, M=1, ct=500, pt=60), thorough=dict(N=3, M=2, ct=1700, pt=60),
       shards=lambda p: [f'len(body) == {i}' for i in range(p['N'] + 1)],
       bounds='function name (len <= {M}) and contents (len <= {N}) unconstrained unicode'),
     H('h_function_wide_sig', 'wide', pre=['len(pn) <= {M}', 'len(init) <= {M}',
